@@ -199,6 +199,8 @@ class Pool2Contribute(Job):
         self.name = "c41m::two_resource_pool_contribute_" + kind
         if kind == "conservation":
             self.tiers = ("thorough",)
+        if kind == "fairness_lowdiv":
+            self.query_timeout_s = 60        # the violating query is found in seconds; the others need not be waited for
         base = ("TwoResourcePoolBlueprint::contribute (v1_1) over a resource ledger (symbolic amount per bucket and vault; "
                 "take_advanced rounds down to the resource's divisibility), any contributions, reserves and unit supply <= "
                 "10^12 units, one run per arm with units in circulation (either reserve empty, or both non-empty; the "
